@@ -36,6 +36,108 @@ def _is_counter(v):
     return False
 
 
+def _web_of(v):
+    v = _uncast(v)
+    web, stack = [], [v]
+    while stack:
+        x = stack.pop()
+        if any(x is w for w in web):
+            continue
+        web.append(x)
+        for o in x.ops:
+            o = _uncast(o)
+            if o.is_inst and o.op == "phi":
+                stack.append(o)
+            elif o.is_inst and o.op == "add" and o.ops[1].is_const:
+                b = _uncast(o.ops[0])
+                if b.is_inst and b.op == "phi":
+                    stack.append(b)
+    return [w for w in web if w.is_inst and w.op == "phi"]
+
+
+def _web_incs(web):
+    """(add instruction, step) for every `member + c` that flows back into the web; other values that flow in"""
+    incs, inits = [], []
+    for x in web:
+        for o in x.ops:
+            o = _uncast(o)
+            if any(o is w for w in web):
+                continue
+            y, step, k = o, 0, 0
+            while y.is_inst and y.op == "add" and y.ops[1].is_const and k < 8:
+                step += y.ops[1].sval
+                y = _uncast(y.ops[0])
+                k += 1
+                if any(y is w for w in web):
+                    break
+            if any(y is w for w in web) and o.is_inst:
+                incs.append((o, step))
+            else:
+                inits.append(o)
+    return incs, inits
+
+
+def _inplace(prog, f, st, cnt, b0):
+    """the store goes into the very buffer the function scans as a NUL terminated string (in-place rewriting).  Returns
+    None (it is not that), "proved" (the write index never passes the read index: every advance of the write index is
+    matched by an advance of the read index on the way to it, both start at the same place) or "undecided"."""
+    W = _web_of(cnt)
+    reads = []
+    for ld in f.insts():
+        if ld.op != "load" or ld.ty != "i8":
+            continue
+        q = strip_casts(ld.ops[0])
+        if not (q.is_inst and q.op == "getelementptr"):
+            continue
+        if strip_casts(resolve_ptr(prog, q.ops[0], f.unit)[0]) is not b0:
+            continue
+        for x in backward_slice(q, phi_control=False):
+            if _is_counter(x) and not any(_uncast(x) is w for w in W):
+                # the scan stops at the terminator: the byte read is compared with 0 somewhere
+                work, seen, nul = [ld], set(), False
+                while work and not nul:
+                    v = work.pop()
+                    if id(v) in seen:
+                        continue
+                    seen.add(id(v))
+                    for u in f.uses.get(v, []):
+                        if u.op in ("zext", "sext", "trunc"):
+                            work.append(u)
+                        elif u.op == "icmp" and any(o.is_const and o.is_int and o.sval == 0 for o in u.ops):
+                            nul = True
+                if nul:
+                    reads.append(_uncast(x))
+                break
+    if not reads:
+        return None
+    R = _web_of(reads[0])
+    w_incs, w_inits = _web_incs(W)
+    r_incs, r_inits = _web_incs(R)
+    if any(step <= 0 for (_a, step) in r_incs) or any(step != 1 for (_a, step) in w_incs):
+        return "undecided"
+    if not all(o.is_const and o.is_int and o.sval == 0 for o in w_inits):
+        return "undecided"
+    if not all((o.is_const and o.is_int and o.sval >= 0) for o in r_inits):
+        return "undecided"          # the read index is set from something else (a helper's answer): not followed
+    rblocks = {a.bb for (a, _s) in r_incs}
+    wblocks = {a.bb for (a, _s) in w_incs}
+    # every way from the entry or from an advance of the write index to (the next) advance of the write index passes an
+    # advance of the read index
+    for start in [None] + list(wblocks):
+        seen, work = set(), ([f.blocks[0]] if start is None else list(start.succs))
+        while work:
+            b = work.pop()
+            if b in seen:
+                continue
+            seen.add(b)
+            if b in rblocks:
+                continue
+            if b in wblocks:
+                return "undecided"
+            work.extend(b.succs)
+    return "proved"
+
+
 def run_k6idx(chk, prog, rule="K6-index", files=None):
     n = 0
     for f in prog.functions():
@@ -85,8 +187,18 @@ def run_k6idx(chk, prog, rule="K6-index", files=None):
                 if pb and not pa:
                     if (pr in ("ugt", "uge", "sgt", "sge") and outcome is True) or (pr in ("ule", "ult", "sle", "slt") and outcome is False):
                         ok = True
+            inpl = None if ok else _inplace(prog, f, i, cnt, b0)
             if ok:
                 chk.ok(rule, inst, i, "the counter is tested against an upper bound on every path to the store")
+            elif inpl == "proved":
+                chk.ok(rule, inst, i, "in-place rewriting of the string the function scans: the write index starts where the read "
+                       "index starts and every advance of it is matched by an advance of the read index, so each store lands on a "
+                       "byte the scan has already read")
+            elif inpl == "undecided":
+                # the bound of an in-place rewrite is the terminator the scan stops at, not a size the counter could be
+                # compared with; where write index <= read index is not evident the rule has no verdict (the pointer-cursor
+                # form of the same code is not decided by any rule either, see DESIGN 8.5)
+                chk.note("%s: %s: in-place rewrite of a scanned string, write index <= read index not evident: not decided" % (rule, inst))
             else:
                 chk.violation(rule, inst, i, "store through a pointer indexed by the counter '%s', which is incremented without ever "
                               "being compared with the size of the block it indexes: one element too many overruns the heap" % (cnt.name or "i"))
